@@ -819,6 +819,138 @@ def run(ck, ctx):
                       "the comparison does not select, zero or weight any term of the sum")
     ck.guard(r0610, "R06.10")
 
+    # ---------------------------------------------------------------- R06.11 assembly of the two results
+    def r0611():
+        from ..facets.poly import PolyFacet
+
+        def one(qual):
+            cs = [c for c in I.call_log if c[0].qualname == qual]
+            if not cs:
+                raise AnalysisError(f"{qual} is not reached from the kernel")
+            return cs[0]
+
+        def arms(v, depth=0):
+            if v.op == "Phi" and depth < 10:
+                return arms(v.args[1], depth + 1) + arms(v.args[2], depth + 1)
+            return [v]
+
+        def main_arm(v, what):
+            a = [x for x in arms(v) if any(y.op == "Input" for y in walk([x]))]
+            if len(a) != 1:
+                raise AnalysisError(f"{what}: {len(a)} non-constant return value(s), expected one")
+            return a[0]
+        d_main, a_main = main_arm(den, "photon density"), main_arm(ang, "Cherenkov angle")
+        va = one("CphotAng.valid_arrays")
+        N = I.res(I.elem(va[3], 6), K.st)                       # particle number per step
+        D = I.res(one("CphotAng.d_to_det")[3], K.st)           # distance of each step to the detector
+        S = I.res(one("CphotAng.photon_sum")[3], K.st)
+        Y = I.res(one("CphotAng.sphoton_yeild")[3], K.st)      # final version: zeroed below the cloud top
+        T = I.res(one("CphotAng.tracklen")[3], K.st)
+        c = I.res(I.elem(one("CphotAng.cherenkov_threshold_angle")[3], 1), K.st)
+        dd = [x for x in I.call_log if x[0].qualname == "distance_to_detector"]
+        orbit = I.res(I.load_attr(K.obj, "orbit_height", K.st, None, None), K.st)
+        detalt = I.res(I.load_attr(K.obj, "detector_altitude", K.st, None, None), K.st)
+
+        def third(cl):
+            ent = getattr(cl[2], "entry", cl[2])
+            names = [a_.arg for a_ in cl[0].node.args.args]
+            return I.res(ent[names[2]], K.st) if len(names) > 2 and names[2] in ent else None
+        d_orb = [x for x in dd if third(x) is not None and g.vn(third(x)) == g.vn(orbit)]
+        d_det = [x for x in dd if third(x) is not None and g.vn(third(x)) == g.vn(detalt)]
+        # -- where the ring radius is taken
+        def above(root, stops):
+            """the nodes of root's cone that are not below one of the stop values"""
+            sv = {g.vn(x) for x in stops}
+            seen, out, todo = set(), [], [root]
+            while todo:
+                x = todo.pop()
+                if x.id in seen:
+                    continue
+                seen.add(x.id)
+                out.append(x)
+                if g.vn(x) not in sv:
+                    todo.extend(x.args)
+            return out
+        subs = [x for x in above(d_main, [S]) if x.op == "Subscript" and g.vn(x.args[0]) == g.vn(D)]
+        ck.floor("R06.11", len(subs), 1, "reads of the step-to-detector distance in the photon density")
+
+        def is_argmax_of_N(ix):
+            ix = _strip_cast(ix)
+            if is_ext_call(ix, "numpy.argmax", "numpy.nanargmax") and len(ix.args) >= 2:
+                return g.vn(_strip_cast(ix.args[1])) == g.vn(N)
+            if ix.op == "MCall" and ix.attr[0] == "argmax" and ix.args:
+                return g.vn(_strip_cast(ix.args[0])) == g.vn(N)
+            return False
+        for x in subs:
+            ck.ob("R06.11", "the Cherenkov ring is sized at shower maximum: the distance to the detector is read at the "
+                  "step where the Greisen particle number is largest (argmax N)", is_argmax_of_N(x.args[1]), x, fn,
+                  g.show(x.args[1], 3)[:160], construct="CphotAng.run: step of the ring area")
+        if not (len(d_orb) == 1 and len(d_det) == 1 and subs):
+            ck.ob("R06.11", "the density is rescaled from the reference orbit to the detector altitude by the two "
+                  "distances to the decay point", False, d_main, fn,
+                  f"{len(d_orb)} distance(s) at the reference orbit, {len(d_det)} at the detector altitude")
+            return
+        atoms = {"S": S, "Dm": subs[0], "Y": Y, "T": T, "c": c, "do": I.res(d_orb[0][3], K.st),
+                 "dd": I.res(d_det[0][3], K.st)}
+        cnt = [x for x in walk([a_main]) if is_ext_call(x, "numpy.count_nonzero") or
+               (x.op == "MCall" and x.attr[0] in ("count_nonzero",))]
+        if cnt:
+            atoms["n"] = cnt[0]
+        P = PolyFacet(I, opaque_ids={n.id for n in atoms.values()}, gather_transparent=True)
+        P.canon = lambda n: ("pi",) if (n.op in ("State", "Attr") and n.attr == "pi") else None
+        keys = {g.vn(n) for n in atoms.values()}
+        P.opaque = (lambda n, _k=keys, _o=P.opaque: _o(n) or g.vn(n) in _k)
+        env = {r_: P.of(n) for r_, n in atoms.items()}
+        env["pi"] = P.of(I.res(I.load_attr(K.obj, "pi", K.st, None, None), K.st))
+        MEAN = "sum(sum(Y) * T * c) / sum(sum(Y) * T)"
+        try:
+            env["a"] = _ref_with_pi(P, MEAN, env)
+            want = _ref_with_pi(P, "0.5 * S / (pi * (tan(a) * 1000 * Dm)**2) * (do / dd)**2", env)
+            ok = P.equal(_bare(P.of(d_main)), want)
+            detail = P.show(P.of(d_main))[:240]
+        except Exception as ex:           # noqa: BLE001
+            ok, detail = None, f"{type(ex).__name__}: {ex}"
+        ck.ob("R06.11", "photon density == 0.5 x (photons of the angular integration) / (pi (tan<theta_c> x 1000 x D_max)^2) "
+              "x (distance from the reference orbit / distance from the detector)^2, with <theta_c> the mean Cherenkov "
+              "angle weighted by the photons of each step (sum over wavelengths of the yield x track-length fraction)",
+              ok, d_main, fn, detail, construct="CphotAng.run: photon density")
+        # -- the angle: mean + spread, in degrees
+        phis = [x for x in walk([a_main]) if x.op == "Phi" and cnt and any(y is cnt[0] for y in walk([x.args[0]]))]
+        try:
+            W = "sum(sum(Y) * T / sum(sum(Y) * T) * (c - a)**2)"
+            res = []
+            for pol, ref in ((True, f"degrees(a + sqrt({W} * n / (n - 1)))"), (False, f"degrees(a + sqrt({W}))")):
+                P.memo.clear()
+                P.assume = {g.vn(x.args[0]): pol for x in phis}
+                res.append(P.equal(_bare(P.of(a_main)), _ref_with_pi(P, ref, env)))
+            P.assume = {}
+            def more_than_one(cond):
+                """the switch is true exactly for counts above one (decided on the integers 0 .. 4)"""
+                import operator as _op
+                neg = False
+                while cond.op == "UnaryOp" and cond.attr == "Not":
+                    cond, neg = cond.args[0], not neg
+                if cond.op != "Compare" or len(cond.args) != 2:
+                    return None
+                f = {"Gt": _op.gt, "GtE": _op.ge, "Lt": _op.lt, "LtE": _op.le, "Eq": _op.eq, "NotEq": _op.ne}.get(cond.attr)
+                a_, b_ = (_strip_cast(y) for y in cond.args)
+                if f is None:
+                    return None
+                if g.vn(a_) == g.vn(cnt[0]) and b_.op == "Const" and isinstance(b_.attr, (int, float)):
+                    return all((f(k, b_.attr) != neg) == (k > 1) for k in range(5))
+                if g.vn(b_) == g.vn(cnt[0]) and a_.op == "Const" and isinstance(a_.attr, (int, float)):
+                    return all((f(a_.attr, k) != neg) == (k > 1) for k in range(5))
+                return None
+            sw = [more_than_one(x.args[0]) for x in phis]
+            ok2 = (all(res) and len(phis) >= 1) and (None if any(x is None for x in sw) else all(sw))
+            detail2 = f"arms: {res}, {len(phis)} switch(es) on the number of contributing steps: {sw}"
+        except Exception as ex:           # noqa: BLE001
+            ok2, detail2 = None, f"{type(ex).__name__}: {ex}"
+        ck.ob("R06.11", "effective Cherenkov angle == degrees(<theta_c> + sigma), sigma^2 the photon-weighted variance of "
+              "the per-step angle about <theta_c> (times n / (n - 1) when more than one step contributes)", ok2, a_main,
+              fn, detail2, construct="CphotAng.run: Cherenkov angle")
+    ck.guard(r0611, "R06.11")
+
     # ---------------------------------------------------------------- R06.6 early exits
     def r066():
         def zero(x):
